@@ -25,6 +25,8 @@ def build_jobs(t: str, sd: int):
             fams += gen_subs.abi_sub_family("A", v)
         for (name, rec, opts) in fams:
             for oi, opt in enumerate(gen_subs.sub_options(v, thorough)):
+                if oi > 0 and not thorough and "abi-fact" in name:
+                    continue     # (building a recursive ABIReturnSubroutine costs seconds, see recipe/build.py)
                 j = {"id": "%s@v%d/o%d" % (name, v, oi), "family": name.split(":")[0] + ":" + name.split(":")[1].split("-")[0],
                      "rec": to_json(rec), "version": v, "mode": "A", "optimize": opt,
                      "loop_k": 3 if thorough else 2, "call_depth": 4 if thorough else 3,
